@@ -217,15 +217,14 @@ Print Assumptions c12_src_ring_step.
 
 (* ALL of Rotate - the early returns, n %= q.count, modBits, the full-buffer fast path and the
    two element-moving loops with their writes to q.buf, q.head, q.tail - is the translated
-   source's (interface{} values are tokens: the model at A := Z, nilv := 0): whichever return
-   statement is reached, the deque then has the head, tail and buffer the source assigned
-   ([rot_state]); the source panics exactly when the model crashes; it needs at most |count|
+   source's, translated whole (interface{} values are tokens: the model at A := Z, nilv := 0):
+   the deque then has the head, tail and buffer the source assigned; the source panics exactly when the model crashes; it needs at most |count|
    iterations *)
 Theorem c12_src_rotate : forall (d : @deque Z) n0 fuel,
   0 < cap d < 2 ^ 62 -> - 2 ^ 62 < count d < 2 ^ 62 -> - 2 ^ 63 <= n0 < 2 ^ 63 ->
   - 2 ^ 62 < head d < 2 ^ 62 -> - 2 ^ 62 < tail d < 2 ^ 62 -> (Z.to_nat (Z.abs (count d)) < fuel)%nat ->
-  match go_Deque_Rotate_prefix fuel (head d) (tail d) (buf d) (count d) n0 with
-  | Lib.GoSem.Ok r => let '(h, t, b) := rot_state r in rotate 0 d n0 = Some (mkDeque b h t (count d) (minCap d))
+  match go_Deque_Rotate fuel (head d) (tail d) (buf d) (count d) n0 with
+  | Lib.GoSem.Ok (h, t, b) => rotate 0 d n0 = Some (mkDeque b h t (count d) (minCap d))
   | Lib.GoSem.Panic => rotate 0 d n0 = None
   | Lib.GoSem.OutOfFuel => False
   end.
